@@ -90,7 +90,7 @@ pub fn merge_necessity<T: std::cmp::PartialEq>(
         }
     }
 
-    for other_item in other.into_iter().rev() {
+    for other_item in other.into_iter() {
         let mut found = false;
         for result_item in result.iter() {
             if other_item.inner_t() == result_item.inner_t() {
